@@ -29,7 +29,20 @@ claim("C05",
       "trusted: TLC; raw draws are observed through a wrapper on handshaking_lemma (falls back to an existential over raw draws for N<=4); random.choices uses bisect over cumulative weights (aligned grid)",
       T_TLC, "DESIGN.md 4 C05")
 
+claim("C06",
+      "The loader laws are TLA+ definitions over integer weights; TLC model-checks the construction lifecycle (create_jdd idempotence, with an accumulating deviation that must fail) and judges, for hundreds of enumerated/random inputs per loader, the table read back from the real loader after construction, after a second create_jdd and through the dispatching entry point: exact key set and every numerator over the dictated denominator; marginal support must be a product of contiguous ranges inside the bounds; sampling mode is decided exactly as (law of one sample over the whole aligned RNG tree) + (table = relative frequency of the recorded draws)",
+      "trusted: TLC, float decoding within 1e-6 of a multiple of 1/D; the n->infinity limit of sampling mode is the law of large numbers (assumption)",
+      T_TLC, "DESIGN.md 4 C06")
+claim("C07",
+      "TLC model-checks the k-loop of the split/delta loaders (mass per k, within-k ratios, delta shape, support, and the action property 'a resolved degree is never discarded', with the pinned table-reset as a deviation that must fail); the MC's whole parameter family (3888 cases, emitted by TLC) and random parameter sets up to 4 topologies are replayed into the real loaders and TLC judges every numerator f_k*w(s) over the dictated denominator SumF*SumW(k), plus the key sets after each resolve_degree call",
+      "trusted: TLC, float decoding; probs=a_i/b, fp=f_k/F with small integers",
+      T_TLC, "DESIGN.md 4 C07")
+claim("C08",
+      "TLC model-checks the column-removal loop (descending vs the pinned ascending order, which must fail) and judges the real cover loader on every size mixture incl. non-adjacent ones, 0-/1-based ids, an exhaustive small family and random covers: reported sizes, per-vertex counts, empirical table over |V|, history clauses, and the composition sample -> generate with clique motifs of the reported sizes",
+      "trusted: TLC; covers use contiguous vertex ids and cover every vertex",
+      T_TLC, "DESIGN.md 4 C08")
+
 _pending = "no check built yet in this round; planned (DESIGN.md 4)"
-for p in ["C06","C07","C08","C09","C10","C11","C12","C13","C14","C15","C16","C17","C18"]:
+for p in ["C09","C10","C11","C12","C13","C14","C15","C16","C17","C18"]:
     NOT_APPLICABLE[p] = _pending
 NOT_APPLICABLE["C19"] = "numerical accuracy of four stateless real-valued functions (exp, zeta, polylog): no state, no transitions, TLC has neither reals nor transcendental functions (DESIGN.md 5)"
